@@ -57,8 +57,8 @@ let do_multi_run l =
      item := 1 k t^k | 2 t | 3 t c | 4 | 5 l t | 6 k t^k nsf
    ctx <config> nseg {tid count}     run the schedule, then every thread to completion in tid order
         out: per thread  T status(D | R | C kind lbl) ntrace lbl..   then G and the _get_plugins results
-   ctxsearch <config> astride bstride   2 threads: T0 a steps, T1 b steps, then drain; all crash classes
-        out: N nclasses {tid kind lbl a b}                                                           *)
+   ctxsearch <config> astride bstride cmax   2 threads: T0 a, T1 b, [T0 c], then drain; all crash classes
+        out: N nclasses {tid kind lbl a b c}                                                          *)
 let cur = ref [||] and pos = ref 0
 let next () = let v = !cur.(!pos) in incr pos; v
 let nexts k = List.init k (fun _ -> next ())
@@ -117,30 +117,35 @@ let steps_left c s tid = (* number of steps thread tid makes when run alone *)
   let rec go s n = match List.nth_opt s.s_ths tid with
     | Some th when th.th_status = Running -> go (sys_step c s (nat_of_int tid)) (n + 1)
     | _ -> n in go s 0
+let drain_order c s order = List.fold_left (fun s t -> run_n c s t 1000000) s order
 let do_ctxsearch l =
   cur := Array.of_list l; pos := 0;
   let (c, sh, progs) = parse_config () in
-  let astride = next () in let bstride = next () in
+  let astride = next () in let bstride = next () in let cmax = next () in
   let s0 = init_sys c sh progs in
   let classes = Hashtbl.create 16 in
   let order = ref [] in
-  let record s a b =
+  let record s a b cc =
     List.iteri (fun tid th -> match th.th_status with
       | Crashed (k, lb) ->
           let key = (tid, int_of_z k, int_of_z lb) in
-          if not (Hashtbl.mem classes key) then begin Hashtbl.add classes key (a, b); order := key :: !order end
+          if not (Hashtbl.mem classes key) then begin Hashtbl.add classes key (a, b, cc); order := key :: !order end
       | _ -> ()) s.s_ths in
   let n0 = steps_left c s0 0 in
   let a = ref 0 in
   let sa = ref s0 in
   while !a <= n0 do
-    (* thread 1 advances b steps from sa *)
     let sb = ref !sa in
     let b = ref 0 in
     let continue = ref true in
     while !continue do
-      let fin = drain_all c !sb 2 in
-      record fin !a !b;
+      (* cc = -1: T0 to completion, then T1.   cc >= 0: T0 cc steps, then T1 to completion, then T0 *)
+      record (drain_order c !sb [0; 1]) !a !b (-1);
+      let sc = ref !sb in
+      for cc = 0 to cmax do
+        record (drain_order c !sc [1; 0]) !a !b cc;
+        sc := run_n c !sc 0 1
+      done;
       (match List.nth_opt !sb.s_ths 1 with
        | Some th when th.th_status = Running ->
            sb := run_n c !sb 1 bstride; b := !b + bstride
@@ -151,7 +156,7 @@ let do_ctxsearch l =
   let ks = List.rev !order in
   Printf.sprintf "N %d %s" (List.length ks)
     (String.concat " " (List.map (fun ((tid, k, lb) as key) ->
-       let (a, b) = Hashtbl.find classes key in Printf.sprintf "%d %d %d %d %d" tid k lb a b) ks))
+       let (a, b, cc) = Hashtbl.find classes key in Printf.sprintf "%d %d %d %d %d %d" tid k lb a b cc) ks))
 
 let handle toks =
   match toks with
